@@ -18,6 +18,7 @@ import (
 	"fmt"
 	"math/rand"
 	"os"
+	"reflect"
 	"sort"
 	"strings"
 
@@ -293,6 +294,7 @@ type jcase struct {
 	Sa    []string `json:"sa,omitempty"`
 	Det   []string `json:"det,omitempty"`
 	Extra []string `json:"fake_required,omitempty"`
+	Caps2 string   `json:"caps2,omitempty"`
 	Obs   any      `json:"observed"`
 	Coq   string   `json:"coq"`
 }
@@ -411,6 +413,146 @@ func (o *obsv) caseFilter(kind int, ix []int, c plugin.Capabilities) {
 	got := o.filter(kind, ix, c)
 	o.add(jcase{Fn: "FilterByCapabilities", Kind: kindName[kind], Input: o.plugNames(kind, ix), Caps: capsStr(c), Obs: got,
 		Coq: fmt.Sprintf("CFilter %s %s %s %s", kindCoq[kind], idxList(ix), capsCoq(c), o.r.idList(got))})
+}
+
+// samePlugins: the slice still holds the same plugin objects in the same places as its pre-call copy
+func samePlugins[T plugin.Plugin](now, before []T) bool {
+	if len(now) != len(before) {
+		return false
+	}
+	for i := range now {
+		a, b := reflect.ValueOf(any(now[i])), reflect.ValueOf(any(before[i]))
+		if now[i].Name() != before[i].Name() || a.Kind() != b.Kind() {
+			return false
+		}
+		if a.Kind() == reflect.Ptr && a.Pointer() != b.Pointer() {
+			return false
+		}
+	}
+	return true
+}
+
+type filterStep struct {
+	got    []string
+	intact bool
+	after  []string
+}
+
+// filterSeq filters ONE list object for each capability tuple in turn; after every call the result is read at once and
+// the caller's slice is compared with its pre-call copy.
+func filterSeqT[T plugin.Plugin](list []T, cs []plugin.Capabilities, f func([]T, *plugin.Capabilities) []T) []filterStep {
+	before := append([]T{}, list...)
+	var out []filterStep
+	for _, c := range cs {
+		cc := c
+		got := names(f(list, &cc))
+		out = append(out, filterStep{got, samePlugins(list, before), names(list)})
+	}
+	return out
+}
+
+func (o *obsv) filterSeq(kind int, ix []int, cs []plugin.Capabilities) []filterStep {
+	switch kind {
+	case kFs:
+		return filterSeqT(o.mkFs(ix), cs, el.FilterByCapabilities)
+	case kSa:
+		return filterSeqT(o.mkSa(ix), cs, sl.FilterByCapabilities)
+	default:
+		return filterSeqT(o.mkDet(ix), cs, dl.FilterByCapabilities)
+	}
+}
+
+// the same, on the list object a name resolution returned (order as Go returned it; reported as the case input)
+func (o *obsv) filterSeqResolved(kind int, key string, cs []plugin.Capabilities) ([]int, []filterStep) {
+	idx := func(n string) int {
+		for x, p := range o.r.flat[kind] {
+			if p.Name == n {
+				return x
+			}
+		}
+		panic("resolved plugin not in All: " + n)
+	}
+	var ix []int
+	switch kind {
+	case kFs:
+		l, _ := el.ExtractorsFromNames([]string{key})
+		for _, p := range l {
+			ix = append(ix, idx(p.Name()))
+		}
+		return ix, filterSeqT(l, cs, el.FilterByCapabilities)
+	case kSa:
+		l, _ := sl.ExtractorsFromNames([]string{key})
+		for _, p := range l {
+			ix = append(ix, idx(p.Name()))
+		}
+		return ix, filterSeqT(l, cs, sl.FilterByCapabilities)
+	default:
+		l, _ := dl.DetectorsFromNames([]string{key})
+		for _, p := range l {
+			ix = append(ix, idx(p.Name()))
+		}
+		return ix, filterSeqT(l, cs, dl.FilterByCapabilities)
+	}
+}
+
+func (o *obsv) addFilter2(kind int, ix []int, c1, c2 plugin.Capabilities, st []filterStep, how string) {
+	obs := map[string]any{"list": how, "first": st[0].got, "input_intact_after_first": st[0].intact, "second": st[1].got, "input_intact_after_second": st[1].intact}
+	if !st[0].intact {
+		obs["input_after_first"] = st[0].after
+	}
+	if !st[1].intact {
+		obs["input_after_second"] = st[1].after
+	}
+	o.add(jcase{Fn: "FilterByCapabilities x2 (one list object)", Kind: kindName[kind], Input: o.plugNames(kind, ix), Caps: capsStr(c1), Caps2: capsStr(c2), Obs: obs,
+		Coq: fmt.Sprintf("CFilter2 %s %s %s %s %s %s %s %s", kindCoq[kind], idxList(ix), capsCoq(c1), capsCoq(c2),
+			o.r.idList(st[0].got), cf.Bool(st[0].intact), o.r.idList(st[1].got), cf.Bool(st[1].intact))})
+}
+
+func (o *obsv) caseFilter2(kind int, ix []int, c1, c2 plugin.Capabilities) {
+	o.addFilter2(kind, ix, c1, c2, o.filterSeq(kind, ix, []plugin.Capabilities{c1, c2}), "instantiated from All")
+}
+
+func (o *obsv) caseFilter2Resolved(kind int, key string, c1, c2 plugin.Capabilities) {
+	ix, st := o.filterSeqResolved(kind, key, []plugin.Capabilities{c1, c2})
+	o.addFilter2(kind, ix, c1, c2, st, "returned by FromNames("+key+")")
+}
+
+// name resolution twice with ONE names slice: same answer, slice untouched
+func (o *obsv) caseFromNames2(kind int, ns []string) {
+	in := append([]string{}, ns...)
+	g1, ok1 := o.fromNames(kind, in)
+	g1 = sorted(g1)
+	intact1 := reflect.DeepEqual(in, ns)
+	g2, ok2 := o.fromNames(kind, in)
+	g2 = sorted(g2)
+	intact := intact1 && reflect.DeepEqual(in, ns)
+	o.add(jcase{Fn: "FromNames x2 (one names slice)", Kind: kindName[kind], Input: ns,
+		Obs: map[string]any{"first_ok": ok1, "first": g1, "second_ok": ok2, "second": g2, "names_intact": intact},
+		Coq: fmt.Sprintf("CFromNames2 %s %s %s %s %s", kindCoq[kind], o.r.idList(ns), cf.Option(ok1, o.r.idList(g1)), cf.Option(ok2, o.r.idList(g2)), cf.Bool(intact))})
+}
+
+// EnableRequiredExtractors twice on ONE config built from caller-owned slices: idempotent, the caller's slices untouched
+func (o *obsv) caseEnableTwice(fs, sa, det []int, fake [][]string) {
+	cfg := o.config(fs, sa, det, fake, &plugin.Capabilities{})
+	fsIn, saIn, detIn := cfg.FilesystemExtractors, cfg.StandaloneExtractors, cfg.Detectors
+	fsB, saB, detB := append([]filesystem.Extractor{}, fsIn...), append([]standalone.Extractor{}, saIn...), append([]detector.Detector{}, detIn...)
+	read := func(err error) (any, string) {
+		if err != nil {
+			return "error", "None"
+		}
+		f, s := names(cfg.FilesystemExtractors), names(cfg.StandaloneExtractors)
+		return map[string]any{"fs": f, "sa": s}, fmt.Sprintf("(Some (%s, %s))", o.r.idList(f), o.r.idList(s))
+	}
+	o1, c1 := read(cfg.EnableRequiredExtractors())
+	o2, c2 := read(cfg.EnableRequiredExtractors())
+	intact := samePlugins(fsIn, fsB) && samePlugins(saIn, saB) && samePlugins(detIn, detB) && samePlugins(cfg.Detectors, detB)
+	var ex []string
+	for _, f := range fake {
+		ex = append(ex, strings.Join(f, "+"))
+	}
+	o.add(jcase{Fn: "EnableRequiredExtractors x2 (one config)", Fs: o.plugNames(kFs, fs), Sa: o.plugNames(kSa, sa), Det: o.plugNames(kDet, det), Extra: ex,
+		Obs: map[string]any{"first": o1, "second": o2, "inputs_intact": intact},
+		Coq: fmt.Sprintf("CEnableTwice %s %s %s %s %s %s %s", idxList(fs), idxList(sa), idxList(det), o.fakeCoq(fake), c1, c2, cf.Bool(intact))})
 }
 
 func (o *obsv) caseFromCaps(kind int, c plugin.Capabilities) {
@@ -703,6 +845,50 @@ func observe(r *reg, seed int64, thorough bool) *obsv {
 		for _, d := range r.flat[kDet] {
 			o.caseScanPrep(c, d.Name)
 		}
+	}
+	// J. histories on shared inputs: ONE list object filtered for two capability tuples in turn (every ordered pair), the
+	// caller's slice compared with its pre-call copy after every call; the same for the list a name resolution returned
+	envs := []plugin.Capabilities{}
+	for _, c := range caps {
+		if c.OS != plugin.OSUnix && c.Network != plugin.NetworkAny {
+			envs = append(envs, c)
+		}
+	}
+	for k := 0; k < 3; k++ {
+		pairCaps := caps
+		if k == kFs && !thorough {
+			pairCaps = envs // 32 x 32 documented environments in quick; all 60 x 60 in thorough
+		}
+		n := len(r.flat[k])
+		for _, c1 := range pairCaps {
+			for _, c2 := range pairCaps {
+				o.caseFilter2(k, seq(n), c1, c2)
+			}
+		}
+		for _, c1 := range envs {
+			for _, c2 := range envs {
+				if rng.Intn(4) == 0 || thorough {
+					o.caseFilter2Resolved(k, "all", c1, c2)
+				}
+			}
+		}
+		keys := keysOf(r.names[k])
+		for _, key := range keys {
+			o.caseFilter2Resolved(k, key, envs[rng.Intn(len(envs))], envs[rng.Intn(len(envs))])
+			o.caseFromNames2(k, []string{key})
+			o.caseFromNames2(k, []string{key, keys[rng.Intn(len(keys))], key})
+		}
+		o.caseFromNames2(k, []string{"all", "nosuchplugin", "default"})
+	}
+	for d := 0; d < nd; d++ {
+		o.caseEnableTwice(nil, nil, []int{d}, nil)
+		o.caseEnableTwice(seq(len(r.flat[kFs])), seq(len(r.flat[kSa])), []int{d}, nil)
+	}
+	o.caseEnableTwice(nil, nil, seq(nd), nil)
+	o.caseEnableTwice([]int{0}, []int{0}, seq(nd), [][]string{{"python/wheelegg"}, {"nosuchplugin"}})
+	for i := 0; i < 60; i++ {
+		a, b := reqUniv[rng.Intn(len(reqUniv))], reqUniv[rng.Intn(len(reqUniv))]
+		o.caseEnableTwice(nil, nil, []int{rng.Intn(nd)}, [][]string{{a}, {b, a}})
 	}
 	return o
 }
